@@ -108,9 +108,13 @@ def harnesses(tier, seed):
     else:
         for ty in ("E", "M", "F", "MF", "FM", "FMF", "FL", "FLF"):
             for term in ("find", "any", "all", "first"):
-                for (n, t, c) in ((4, 2, 1), (4, 2, 2), (5, 3, 1), (5, 3, 2), (5, 2, 3)):
+                for (n, t, c) in ((4, 2, 1), (4, 2, 2), (5, 3, 1), (5, 2, 2)):
                     if term != "find" and (n, t) != (4, 2):
                         continue
+                    if ty in ("FL", "FLF") and (n, t, c) != (4, 2, 1):
+                        n, t, c = (3, 2, 2) if c == 2 and n == 4 else (n, t, c)
+                        if n == 5:
+                            continue
                     hs.append(par_h(term, ty, n, t, c))
                 hs.append(seq_h(term, ty, 4))
         for term in ("find", "any", "first"):
